@@ -76,8 +76,9 @@ extern int mpt_fpoint_set(MPT_STRUCT(fpoint) *pt, MPT_INTERFACE(convertable) *sr
 		}
 	}
 	if (r) {
-		if (tmp.x < r->min || tmp.y < r->min
-		 || tmp.x > r->max || tmp.y > r->max) {
+		/* accept values inside the range only, not-a-number compares false */
+		if (!(tmp.x >= r->min) || !(tmp.y >= r->min)
+		 || !(tmp.x <= r->max) || !(tmp.y <= r->max)) {
 			return MPT_ERROR(BadValue);
 		}
 	}
